@@ -1,4 +1,131 @@
-import SdModel.Model.Derive
+import SdModel.Lemmas.DeriveIdx
+
+/-!
+# C03 — diff entries are independent per field; skipped fields are never touched
+
+For a struct with field descriptors `fts` (any templates, any nesting): every entry of `a.diff(&b)` is addressed to
+one unskipped field; applying ANY sub-multiset of the entries (no entry twice) in ANY order returns normally and
+yields a value whose selected fields satisfy their strategy's post-condition against `b` (C01) and whose every
+other field is exactly `a`'s; and NO sequence of `apply_single` calls whatsoever — entries from any source —
+changes a skipped field.
+-/
 namespace C03
-theorem placeholder : True := trivial
+open Derive
+
+/-- position-wise invariant while the selected entries are applied one by one: `T` = positions already patched -/
+def Inv (fs : FS) (a b x : Vals) (T : List Nat) : Prop :=
+  SWT fs x ∧ ∀ j e, fs[j]? = some e → ∃ va vb vx, valAt a j = some va ∧ valAt b j = some vb ∧ valAt x j = some vx ∧
+    (if j ∈ T then e.2.2.post va vb vx else vx = va)
+
+theorem inv_init (fs : FS) (a b : Vals) (ha : SWT fs a) (hb : SWT fs b) : Inv fs a b a [] := by
+  refine ⟨ha, fun j e hj => ?_⟩
+  obtain ⟨va, h1, _⟩ := swt_at fs a ha j e hj
+  obtain ⟨vb, h2, _⟩ := swt_at fs b hb j e hj
+  exact ⟨va, vb, va, h1, h2, h1, by simp⟩
+
+theorem step (fs : FS) (hs : ∀ x ∈ fs, FieldSpec x.2.1 x.2.2) (a b : Vals) (ha : SWT fs a) (hb : SWT fs b)
+    (x : Vals) (T : List Nat) (hinv : Inv fs a b x T) (n : Nat) (p : Payload)
+    (hmem : (n, p) ∈ sdiffG (·.diff) (fieldsOf fs) 0 a b) (hn : n ∉ T) :
+    ∃ x', sapplyOne (fieldsOf fs) 0 (n, p) x = .ok x' ∧ Inv fs a b x' (n :: T) := by
+  obtain ⟨j, F, R, va, vb, e1, e2, e3, e4, e5⟩ := mem_sdiffG _ fs 0 a b n p hmem
+  simp only [Nat.zero_add] at e1
+  subst e1
+  obtain ⟨va', vb', vx, i1, i2, i3, i4⟩ := hinv.2 n _ e2
+  rw [e3] at i1; cases i1
+  rw [e4] at i2; cases i2
+  simp only [hn, if_false] at i4
+  subst i4
+  obtain ⟨_, w1, w2⟩ := swt_at fs a ha n _ e2
+  rw [e3] at w1; cases w1
+  obtain ⟨_, w3, w4⟩ := swt_at fs b hb n _ e2
+  rw [e4] at w3; cases w3
+  have hF := hs _ (List.mem_of_getElem? e2)
+  obtain ⟨r0, f1, f2, f3⟩ := hF.follow vx vb vx p w2 w4 w2 (hF.refl vx w2) e5
+  have := sapplyOne_at fs 0 x n F R vx r0 p e2 i3 f1
+  simp only [Nat.zero_add] at this
+  refine ⟨setAt x n r0, this, swt_setAt fs x hinv.1 n _ e2 r0 f2, fun j e hj => ?_⟩
+  by_cases hjn : j = n
+  · subst hjn
+    rw [e2] at hj; cases hj
+    exact ⟨vx, vb, r0, e3, e4, valAt_setAt_same x j r0 vx i3, by simp only [List.mem_cons, true_or, if_true]; exact f3⟩
+  · obtain ⟨va', vb', vx', i1, i2, i3', i4⟩ := hinv.2 j e hj
+    refine ⟨va', vb', vx', i1, i2, by rw [valAt_setAt_ne x n j r0 hjn]; exact i3', ?_⟩
+    simp only [List.mem_cons, hjn, false_or]
+    exact i4
+
+theorem fold (fs : FS) (hs : ∀ x ∈ fs, FieldSpec x.2.1 x.2.2) (a b : Vals) (ha : SWT fs a) (hb : SWT fs b)
+    (es : Entries) : ∀ (x : Vals) (T : List Nat), Inv fs a b x T →
+      (∀ e ∈ es, e ∈ sdiffG (·.diff) (fieldsOf fs) 0 a b) → (es.map (·.1)).Nodup → (∀ e ∈ es, e.1 ∉ T) →
+      ∃ r, sapplyG (fieldsOf fs) 0 x es = .ok r ∧ Inv fs a b r ((es.map (·.1)).reverse ++ T) := by
+  induction es with
+  | nil => intro x T h _ _ _; exact ⟨x, rfl, by simpa using h⟩
+  | cons e es ih =>
+    obtain ⟨n, p⟩ := e
+    intro x T hinv hsub hnd hT
+    simp only [List.map_cons, List.nodup_cons] at hnd
+    obtain ⟨x', s1, s2⟩ := step fs hs a b ha hb x T hinv n p (hsub _ List.mem_cons_self) (hT _ List.mem_cons_self)
+    obtain ⟨r, r1, r2⟩ := ih x' (n :: T) s2 (fun e he => hsub e (List.mem_cons_of_mem _ he)) hnd.2 (by
+      intro e he
+      simp only [List.mem_cons, not_or]
+      exact ⟨fun h => hnd.1 (h ▸ List.mem_map_of_mem (f := (·.1)) he), hT e (List.mem_cons_of_mem _ he)⟩)
+    refine ⟨r, by simp only [sapplyG, s1, r1], ?_⟩
+    simpa using r2
+
+/-- **C03**: any sub-multiset of the entries of `a.diff(&b)`, in any order -/
+theorem subset_any_order (fts : FieldTys) (a b : Val)
+    (ha : (relTy (.struct fts)).wt a) (hb : (relTy (.struct fts)).wt b) (es : Entries)
+    (hsub : ∀ e ∈ es, e ∈ (semTy (.struct fts)).diff a b) (hnd : (es.map (·.1)).Nodup) :
+    ∃ x y r, a = .strct x ∧ b = .strct y ∧ (semTy (.struct fts)).apply a es = .ok (.strct r) ∧
+      SWT (relFields fts) r ∧
+      ∀ j e, (relFields fts)[j]? = some e → ∃ va vb vr, valAt x j = some va ∧ valAt y j = some vb ∧ valAt r j = some vr ∧
+        (if j ∈ es.map (·.1) then e.2.2.post va vb vr else vr = va) := by
+  simp only [relTy, structRel] at ha hb
+  obtain ⟨x, rfl, hx⟩ := ha
+  obtain ⟨y, rfl, hy⟩ := hb
+  simp only [semTy, ← fieldsOf_rel, structSem] at hsub
+  obtain ⟨r, r1, r2⟩ := fold (relFields fts) (spec_fields fts) x y hx hy es x [] (inv_init _ x y hx hy) hsub hnd (by simp)
+  refine ⟨x, y, r, rfl, rfl, ?_, r2.1, fun j e hj => ?_⟩
+  · rw [semTy, ← fieldsOf_rel, structSem_apply, r1]; rfl
+  · obtain ⟨va, vb, vr, h1, h2, h3, h4⟩ := r2.2 j e hj
+    refine ⟨va, vb, vr, h1, h2, h3, ?_⟩
+    simp only [List.append_nil, List.mem_reverse] at h4
+    exact h4
+
+/-- no entry is ever produced for a skipped field: every entry addresses an unskipped field whose values differ -/
+theorem entries_address_unskipped (fts : FieldTys) (x y : Vals) (n : Nat) (p : Payload)
+    (h : (n, p) ∈ (semTy (.struct fts)).diff (.strct x) (.strct y)) :
+    ∃ F R va vb, (relFields fts)[n]? = some (false, F, R) ∧ valAt x n = some va ∧ valAt y n = some vb ∧
+      F.diff va vb = some p := by
+  simp only [semTy, ← fieldsOf_rel, structSem] at h
+  obtain ⟨j, F, R, va, vb, e1, e2, e3, e4, e5⟩ := mem_sdiffG _ _ 0 x y n p h
+  simp only [Nat.zero_add] at e1; subst e1
+  exact ⟨F, R, va, vb, e2, e3, e4, e5⟩
+
+/-- NO sequence of apply calls changes a skipped field: whatever the entries (from a diff of other values, forged,
+repeated), if the application returns then every skipped position holds what it held before; an entry addressed to
+a skipped field cannot even be expressed (the variant does not exist: the model rejects it) -/
+theorem skipped_never_touched (fts : FieldTys) (x : Vals) (es : Entries) (r : Val)
+    (h : (semTy (.struct fts)).apply (.strct x) es = .ok r) :
+    ∃ z, r = .strct z ∧ ∀ j F R, (relFields fts)[j]? = some (true, F, R) → valAt z j = valAt x j := by
+  rw [semTy, ← fieldsOf_rel, structSem_apply] at h
+  induction es generalizing x with
+  | nil =>
+    simp only [sapplyG, Except.map] at h
+    cases h
+    exact ⟨x, rfl, fun _ _ _ _ => rfl⟩
+  | cons e es ih =>
+    obtain ⟨n, p⟩ := e
+    simp only [sapplyG] at h
+    cases h1 : sapplyOne (fieldsOf (relFields fts)) 0 (n, p) x with
+    | error m => rw [h1] at h; cases h
+    | ok x' =>
+      rw [h1] at h
+      obtain ⟨z, hz, hframe⟩ := ih x' h
+      obtain ⟨j, F, R, v, v', e1, e2, e3, e4, e5⟩ := sapplyOne_frame _ 0 x x' n p h1
+      refine ⟨z, hz, fun j' F' R' hj' => ?_⟩
+      rw [hframe j' F' R' hj', e5]
+      apply valAt_setAt_ne
+      rintro rfl
+      rw [e2] at hj'; cases hj'
+
 end C03
